@@ -268,8 +268,44 @@ def run(scn, st):
             st.count("probe.unsettled_skip")
 
 
+def positions_consistent(m):
+    """GFA2: every position of an E/F line agrees with the length of its segment ('$' exactly on the last
+    position). A history that adds an edge whose positions contradict a segment's length is not a history of
+    legal steps (the quantifier of C05); gfapy notices it only in Gfa.validate() (C04's business)."""
+    if m.version != "gfa2":
+        return True
+    slen = {}
+    for r in m.recs:
+        if r.rt == "S":
+            try:
+                slen[r.pos[0]] = int(r.pos[1])
+            except ValueError:
+                return False
+    for r in m.recs:
+        if r.rt == "E":
+            trip = [(r.pos[1][:-1], r.pos[3:5]), (r.pos[2][:-1], r.pos[5:7])]
+        elif r.rt == "F":
+            trip = [(r.pos[0], r.pos[2:4])]
+        else:
+            continue
+        for sid, pp in trip:
+            if sid not in slen:
+                continue
+            for p in pp:
+                try:
+                    v = int(p.rstrip("$"))
+                except ValueError:
+                    return False
+                if (p.endswith("$")) != (v == slen[sid]) or v > slen[sid]:
+                    return False
+    return True
+
+
 def restart_check(w, m, st, n, op):
     """A Gfa parsed afresh from the text the history denotes has the same observation."""
+    if not positions_consistent(m):
+        st.count("probe.restart_skipped_inconsistent_positions")
+        return
     text = "\n".join(m.render())
     o = core.call(gfapy.Gfa, text, vlevel=w.gfa.vlevel, version=m.version)
     st.count("probe.restart_crosscheck")
